@@ -37,36 +37,10 @@ def cases(draw, tier):
     return {'nl': nl, 'route': draw(gen.routes(nl)), 'blocks': blocks, 'uuid_seed': draw(st.integers(0, 2 ** 20))}
 
 
-def check_bench(case):
-    core = cirbo_core()
-    nl = case['nl']
-    c = build.build(nl, case['route'])
+def verify(c, ret, nl, blocks_before):
+    """Post-conditions of one into_bench() call on circuit `c` that was the netlist `nl` before the call."""
     labs = [g[0] for g in nl['gates']]
     typ = {g[0]: g[1] for g in nl['gates']}
-    for b in case['blocks']:
-        gl = [labs[i] for i in b['gates']]
-        if b['explicit_inputs']:
-            c.make_block(b['name'], gl, [labs[i] for i in b['outputs']], inputs=[])
-        else:
-            c.make_block(b['name'], gl, [labs[i] for i in b['outputs']])
-    n = len(nl['inputs'])
-    has_const = any(t in ('ALWAYS_TRUE', 'ALWAYS_FALSE') for t in typ.values())
-    before = wellformed.snapshot(c)
-    blocks_before = {name: list(b.gates) for name, b in c.blocks.items()}
-    with UuidStream(case['uuid_seed']):
-        # graphviz rendering in bench form must leave the original untouched
-        g = c.into_graphviz_digraph(as_bench=True, draw_blocks=False) if n > 0 or not has_const else None
-        if g is not None and not isinstance(g.source, str):
-            raise Violation('graphviz', 'no DOT source produced')
-        if wellformed.snapshot(c) != before:
-            raise Violation('graphviz_modified_original', 'into_graphviz_digraph(as_bench=True) modified the circuit')
-        if n == 0 and has_const:
-            try:
-                c.into_bench()
-            except core.CirboError:
-                return {'nt': False, 'cls': {'zero_inputs_constant_rejected'}}
-            raise Violation('zero_input_constant', 'conversion of a constant without any input did not raise')
-        ret = c.into_bench()
     if ret is not c:
         raise Violation('return_value', 'into_bench does not return the circuit')
     res = refsem.from_circuit(c)
@@ -111,6 +85,40 @@ def check_bench(case):
         now = list(c.get_block(name).gates)
         if [x for x in now if x in typ] != members:
             raise Violation('block_members', f'block {name} lost or reordered members')
+    return n_rewritten
+
+
+def check_bench(case):
+    core = cirbo_core()
+    nl = case['nl']
+    c = build.build(nl, case['route'])
+    labs = [g[0] for g in nl['gates']]
+    typ = {g[0]: g[1] for g in nl['gates']}
+    for b in case['blocks']:
+        gl = [labs[i] for i in b['gates']]
+        if b['explicit_inputs']:
+            c.make_block(b['name'], gl, [labs[i] for i in b['outputs']], inputs=[])
+        else:
+            c.make_block(b['name'], gl, [labs[i] for i in b['outputs']])
+    n = len(nl['inputs'])
+    has_const = any(t in ('ALWAYS_TRUE', 'ALWAYS_FALSE') for t in typ.values())
+    before = wellformed.snapshot(c)
+    blocks_before = {name: list(b.gates) for name, b in c.blocks.items()}
+    with UuidStream(case['uuid_seed']):
+        # graphviz rendering in bench form must leave the original untouched
+        g = c.into_graphviz_digraph(as_bench=True, draw_blocks=False) if n > 0 or not has_const else None
+        if g is not None and not isinstance(g.source, str):
+            raise Violation('graphviz', 'no DOT source produced')
+        if wellformed.snapshot(c) != before:
+            raise Violation('graphviz_modified_original', 'into_graphviz_digraph(as_bench=True) modified the circuit')
+        if n == 0 and has_const:
+            try:
+                c.into_bench()
+            except core.CirboError:
+                return {'nt': False, 'cls': {'zero_inputs_constant_rejected'}}
+            raise Violation('zero_input_constant', 'conversion of a constant without any input did not raise')
+        ret = c.into_bench()
+    n_rewritten = verify(c, ret, nl, blocks_before)
     cls = gen.classify(nl)
     if case['blocks']:
         cls.add('blocks')
@@ -125,6 +133,98 @@ def check_bench(case):
             'sample': {'bench': build.bench_text(nl), 'blocks': case['blocks']}}
 
 
+# ---------------------------------------------------------------------------
+# conversion of circuits that have a history: converted once, changed, converted again
+
+
+@st.composite
+def reconvert_cases(draw, tier):
+    big = tier == 'thorough'
+    nl = draw(gen.netlists(min_inputs=2, max_inputs=5, max_gates=14 if big else 10, types=draw(st.sampled_from([HEAVY, list(gen.ALL_TYPES)])),
+                           max_arity=3, styles=('plain', 'mixed'), max_outputs=3, const_operands=(0, 0, 2)))
+    muts = []
+    for _ in range(draw(st.integers(1, 3))):
+        kind = draw(st.sampled_from(['replace_inputs', 'replace_inputs', 'add_gates', 'add_circuit', 'rename', 'nothing']))
+        m = {'kind': kind}
+        if kind == 'replace_inputs':
+            m['true'] = draw(st.lists(st.integers(0, 8), max_size=2))
+            m['false'] = draw(st.lists(st.integers(0, 8), max_size=2))
+        elif kind == 'add_gates':
+            m['gates'] = [[draw(st.sampled_from(sorted(REWRITTEN))), draw(st.integers(0, 40)), draw(st.integers(0, 40)),
+                           draw(st.booleans())] for _ in range(draw(st.integers(1, 3)))]
+            m['emplace'] = draw(st.booleans())
+        elif kind == 'add_circuit':
+            m['other'] = draw(gen.netlists(min_inputs=1, max_inputs=2, max_gates=4, types=HEAVY, max_arity=2, styles=('plain',), max_outputs=2))
+        elif kind == 'rename':
+            m['x'] = draw(st.integers(0, 40))
+        muts.append(m)
+    return {'nl': nl, 'route': draw(gen.routes(nl)), 'muts': muts, 'uuid_seed': draw(st.integers(0, 2 ** 20)),
+            'first': draw(st.sampled_from([True, True, True, False]))}
+
+
+def check_reconvert(case):
+    core = cirbo_core()
+    nl = case['nl']
+    c = build.build(nl, case['route'])
+    cls = set()
+    with UuidStream(case['uuid_seed']):
+        if case['first']:
+            ret = c.into_bench()
+            verify(c, ret, nl, {})
+            cls.add('converted_before')
+        fresh = 0
+        for k, m in enumerate(case['muts']):
+            cur = refsem.from_circuit(c)
+            labs = [g[0] for g in cur['gates']]
+            if m['kind'] == 'replace_inputs':
+                ins = list(cur['inputs'])
+                tr = [ins[i % len(ins)] for i in m['true']]
+                fa = [ins[i % len(ins)] for i in m['false'] if ins[i % len(ins)] not in tr]
+                tr, fa = list(dict.fromkeys(tr)), list(dict.fromkeys(fa))
+                if len(tr) + len(fa) >= len(ins) or not (tr or fa):
+                    continue
+                c.replace_inputs(tr, fa)
+                cls.add('replace_inputs')
+            elif m['kind'] == 'add_gates':
+                for t, a, b, out in m['gates']:
+                    ops = () if t.startswith('ALWAYS') else (labs[a % len(labs)], labs[b % len(labs)])
+                    lab = f'fresh{k}_{fresh}'
+                    fresh += 1
+                    if m['emplace']:
+                        c.emplace_gate(lab, getattr(core.gate, t), ops)
+                    else:
+                        c.add_gate(core.gate.Gate(lab, getattr(core.gate, t), ops))
+                    if out:
+                        c.mark_as_output(lab)
+                    labs.append(lab)
+                cls.add('add_gates')
+            elif m['kind'] == 'add_circuit':
+                oc = build.build(m['other'], None)
+                c.add_circuit(oc, name=f'sub{k}')
+                cls.add('add_circuit')
+            elif m['kind'] == 'rename':
+                old = labs[m['x'] % len(labs)]
+                c.rename_gate(old, f'renamed{k}')
+                cls.add('rename')
+            # a conversion in the middle of the history as well
+            if k + 1 < len(case['muts']) and case['muts'][k + 1]['kind'] == 'nothing':
+                mid = refsem.from_circuit(c)
+                mid_blocks = {name: list(b.gates) for name, b in c.blocks.items()}
+                if mid['inputs']:
+                    verify(c, c.into_bench(), mid, mid_blocks)
+        nl2 = refsem.from_circuit(c)
+        if not nl2['inputs']:
+            return {'nt': False, 'cls': cls | {'no_inputs_left'}}
+        blocks_before = {name: list(b.gates) for name, b in c.blocks.items()}
+        ret = c.into_bench()
+    n_rewritten = verify(c, ret, nl2, blocks_before)
+    if n_rewritten:
+        cls.add('non_bench_gates_reintroduced' if case['first'] else 'non_bench_gates')
+    return {'nt': case['first'] and n_rewritten >= 1, 'cls': cls,
+            'key': [nl['inputs'], nl['gates'], nl['outputs'], case['muts']],
+            'sample': {'bench_before_second_conversion': build.bench_text(nl2), 'history': [m['kind'] for m in case['muts']]}}
+
+
 SPEC = {
     'id': 'C14',
     'rule': ('Hypothesis netlists (0-6 inputs, all types with comparison / L*/R* / constant gates weighted up, identical '
@@ -132,9 +232,15 @@ SPEC = {
              'into_bench() and into_graphviz_digraph(as_bench=True). Oracle: inputs/outputs lists and per-gate reference '
              'tables unchanged, only {INPUT,NOT,AND,OR,NAND,NOR,XOR,NXOR,IFF} remain, wellformed() (users multiset etc.), '
              'every new label is a NOT used by exactly one rewritten gate and is in exactly the blocks containing that '
-             'gate, zero-input circuits with a constant raise. Non-trivial: >=2 gates were rewritten.'),
+             'gate, zero-input circuits with a constant raise. Sub-check reconvert: circuits with a history - converted once, then '
+             'changed by replace_inputs / add_gate / emplace_gate of non-bench types / add_circuit / rename_gate, then converted '
+             'again (same post-conditions against the netlist read back just before the call). Non-trivial: >=2 gates were '
+             'rewritten (reconvert: a non-bench gate was re-introduced after an earlier conversion).'),
     'assumptions': ['reference tables from vlib/refsem.py; uuid4 replaced by a seeded stream'],
-    'subs': [Sub('bench', cases, check_bench, {'quick': 3000, 'thorough': 200000})],
+    'subs': [Sub('bench', cases, check_bench, {'quick': 3000, 'thorough': 200000}),
+             Sub('reconvert', reconvert_cases, check_reconvert, {'quick': 1200, 'thorough': 60000})],
     'required_classes': {'bench': ['blocks', 'binary_identical_operands', 'rewritten_output', 'rewritten_in_block',
-                                   'constant', 'LR_gate', 'cmp_gate', 'zero_inputs_constant_rejected']},
+                                   'constant', 'LR_gate', 'cmp_gate', 'zero_inputs_constant_rejected'],
+                         'reconvert': ['converted_before', 'replace_inputs', 'add_gates', 'add_circuit', 'rename',
+                                       'non_bench_gates_reintroduced']},
 }
